@@ -126,6 +126,21 @@ def check(ctx):
     # index sites: constraints_validators(...)[K] feeds a node whose guard establishes K
     check_index_sites(ctx)
 
+    # ---- R6: recursion on the datum (not on the type)
+    ctx.rule("C03.R6", "no helper of the node methods recurses on the datum itself: node methods recurse along the type, whose depth is fixed; a helper walking the datum recursively raises RecursionError on deeply nested input even for a flat type such as List[Any]", floor=1)
+    n6 = 0
+    for fi in model.funcs_in_module(DESER_MOD):
+        if fi.cls is not None or fi.parent is not None:
+            continue
+        rec = [c for c in ast.walk(fi.node) if (isinstance(c, ast.Call) and isinstance(c.func, ast.Name) and c.func.id == fi.name) or (isinstance(c, ast.Name) and c.id == fi.name and isinstance(c.ctx, ast.Load))]
+        if not rec or not fi.params:
+            continue
+        n6 += 1
+        p0 = fi.params[0]
+        walks_datum = any(isinstance(n, ast.Call) and dotted(n.func) == "isinstance" and norm(n.args[0]) == p0 and any(t in norm(n.args[1]) for t in ("list", "dict")) for n in ast.walk(fi.node))
+        ctx.check(not walks_datum, "C03.R6", fi.qualname, None, f"{fi.name} calls itself on the elements of its argument (a list / dict of the input): its depth is the depth of the datum, not of the type; with uniqueItems on List[Any], 2000 nested lists raise RecursionError out of deserialize", fi, rec[0], detail="iterative, or depth-bounded")
+    ctx.check(n6 >= 1, "C03.R6", f"{DESER_MOD}:recursive-helpers", None, "no self-recursive helper found in the methods module (rule instance vanished)", None, None, nontrivial=False)
+
     # ---- R5: build-time name tables
     ctx.rule("C03.R5", "names from dependent_required are looked up in the operation's field table only under a membership guard (no KeyError for fields skipped for the operation)", floor=3)
     nametable_rule(ctx, "C03.R5")
